@@ -22,8 +22,8 @@ RULE = ("Hypothesis generates memories: row shape unsigned 0..6 / signed 1..5 / 
         "'unspecified' mask for: reads beyond the depth, two ports writing one bit in the same instant, a row read "
         "in one domain in the instant it is written in another. After every event every read port and every row "
         "(ctx.get(mem.data[i])) is compared on all specified bits. rtlil: the same memories converted to RTLIL and "
-        "executed by the independent evaluator (vlib/rtlil_eval.py) under the same events; read ports compared "
-        "where both are specified (added when the evaluator is available; counted separately). Non-trivial: a "
+        "executed by the independent evaluator (vlib/rtlil_eval.py) under the same events; every read port is compared "
+        "with the simulator wherever the RTLIL side is defined (undefined bits are masked and counted). Non-trivial: a "
         "non-empty transparency set or granularity finer than the row, AND a same-edge read/write address collision "
         "occurred. Distinct by canonical hash of the case.")
 ASSUMPTIONS = [
@@ -309,6 +309,103 @@ def mem_body(ctx, case):
     ctx.note(case, nontrivial, *keys, evals=len(case["events"]))
 
 
+def rtlil_body(ctx, case):
+    """The same memory, converted to RTLIL and executed by the independent evaluator, against the simulator."""
+    from amaranth.hdl import Fragment
+    from amaranth.back import rtlil
+    from vlib import rtlil_read as RR, rtlil_eval as RE
+    w = shape_width(case["shape"])
+    full = (1 << w) - 1
+    with warnings.catch_warnings():
+        warnings.simplefilter("ignore")
+        m, cds, mem, wps, rps, sh = build(case)
+        sim = Simulator(m)
+        m2, cds2, mem2, wps2, rps2, sh2 = build(case)
+        pd = {}
+        for i, wp in enumerate(wps2):
+            pd[f"w{i}_addr"] = (wp.addr, None); pd[f"w{i}_data"] = (Value.cast(wp.data), None); pd[f"w{i}_en"] = (wp.en, None)
+        for i, rp in enumerate(rps2):
+            pd[f"r{i}_addr"] = (rp.addr, None); pd[f"r{i}_data"] = (Value.cast(rp.data), None)
+            if case["rports"][i]["dom"] != "comb":
+                pd[f"r{i}_en"] = (rp.en, None)
+        for d in ("a", "b"):
+            pd[f"clk_{d}"] = (cds2[d].clk, None)
+        text, _ = rtlil.convert_fragment(Fragment.get(m2, None), ports=pd, name="top")
+    ev = RE.Evaluator(RR.parse(text))
+    init = {"\\" + n: (s.init & ((1 << len(s)) - 1)) for n, (s, _) in pd.items() if "\\" + n in ev.inputs}
+    ev.set_inputs(init)
+    mempath = next(iter(ev.mems)) if ev.mems else None
+    stats = dict(compared=0, masked=0, collision=False)
+    fail = []
+
+    def rset(upd):
+        upd = {"\\" + k: v for k, v in upd.items() if "\\" + k in ev.inputs}
+        if upd:
+            ev.set_inputs(upd)
+
+    def compare(c, step, evn):
+        for i, rp in enumerate(rps):
+            nm = ("\\" + f"r{i}_data",)
+            if nm not in ev.wires:
+                continue
+            got = c.get(Value.cast(rp.data)) & full
+            rv, rx = ev.get(nm)
+            stats["compared"] += 1
+            if rx: stats["masked"] += 1
+            if (got ^ rv) & ~rx & full:
+                return Mismatch("simulator-and-rtlil-disagree", step=step, event=evn, port=i, port_config=case["rports"][i],
+                                wports=case["wports"], simulator=got, rtlil=rv, rtlil_undef_mask=rx, shape=case["shape"],
+                                depth=case["depth"])
+        return None
+
+    async def tb(c):
+        waddr = {}
+        raddr = {}
+        for step, evn in enumerate(case["events"]):
+            if evn[0] == "w":
+                _, i, a, d, en = evn
+                c.set(wps[i].addr, a); c.set(Value.cast(wps[i].data), d); c.set(wps[i].en, en)
+                rset({f"w{i}_addr": a, f"w{i}_data": d, f"w{i}_en": en})
+                waddr[i] = (a, en)
+            elif evn[0] == "r":
+                _, i, a, en = evn
+                c.set(rps[i].addr, a)
+                upd = {f"r{i}_addr": a}
+                if case["rports"][i]["dom"] != "comb":
+                    c.set(rps[i].en, int(en)); upd[f"r{i}_en"] = int(en)
+                rset(upd)
+                raddr[i] = a
+            elif evn[0] == "clk":
+                doms = evn[1]
+                if any(waddr.get(i, (None, 0))[1] and waddr[i][0] in raddr.values() for i in waddr): stats["collision"] = True
+                c.set(Cat(*[cds[d].clk for d in doms]), (1 << len(doms)) - 1)
+                rset({f"clk_{d}": 1 for d in doms})
+                mm = compare(c, step, evn + ["rise"])
+                if mm: fail.append(mm); return
+                c.set(Cat(*[cds[d].clk for d in doms]), 0)
+                rset({f"clk_{d}": 0 for d in doms})
+            elif evn[0] == "poke" and mempath is not None:
+                _, r, v = evn
+                c.set(mem.data[r], to_py(case["shape"], sh, v))
+                ev.set_mem_row(mempath, r, v)
+            mm = compare(c, step, evn)
+            if mm: fail.append(mm); return
+    with warnings.catch_warnings():
+        warnings.simplefilter("ignore")
+        sim.add_testbench(tb)
+        sim.run()
+    if fail:
+        raise fail[0]
+    keys = ["rtl:memory"]
+    if any(len(rp["transparent"]) >= 1 for rp in case["rports"]) and len(case["wports"]) >= 2: keys.append("rtl:transparency-with-several-write-ports")
+    if stats["collision"]: keys.append("rtl:collision")
+    if any(rp["dom"] == "comb" for rp in case["rports"]): keys.append("rtl:async-read")
+    ctx.extra["rtlil_comparisons"] = ctx.extra.get("rtlil_comparisons", 0) + stats["compared"]
+    ctx.extra["rtlil_masked"] = ctx.extra.get("rtlil_masked", 0) + stats["masked"]
+    nontrivial = stats["collision"] and bool(case["rports"])
+    ctx.note(case, nontrivial, *keys, evals=len(case["events"]))
+
+
 def parts(tier):
     q = tier == "quick"
     # deterministic process order (insertion order) so that an order-dependent failure is reproducible
@@ -317,6 +414,7 @@ def parts(tier):
     simorder.set_policy(None)
     return [
         Part("memories", "hyp", strategy=mem_cases(30 if q else 80), body=mem_body, n=250 if q else 2500),
+        Part("rtlil", "hyp", strategy=mem_cases(30 if q else 80), body=rtlil_body, n=120 if q else 1500),
     ]
 
 
@@ -324,4 +422,5 @@ REQUIRED = ["mem:shape-u", "mem:shape-s", "mem:shape-array", "mem:shape-struct",
             "mem:transparency-set", "mem:fine-granularity", "mem:async-read-port", "mem:collision", "mem:transparent_collision",
             "mem:opaque_collision", "mem:cross_domain_collision", "mem:write_beyond_depth", "mem:read_beyond_depth",
             "mem:partial_write", "mem:poke", "mem:coincident_edges", "mem:write_write_collision",
-            "mem:write-ports-in-two-domains"]
+            "mem:write-ports-in-two-domains", "rtl:memory", "rtl:transparency-with-several-write-ports", "rtl:collision",
+            "rtl:async-read"]
